@@ -570,7 +570,7 @@ func (ex *Exec) decideAll(obls []*Obligation, cfg SolveCfg) {
 	if cfg.SaveDir != "" {
 		os.MkdirAll(cfg.SaveDir, 0o755)
 		for _, ob := range obls {
-			if ob.Status != "unsat" && ob.Script != "" {
+			if (ob.Status != "unsat" || os.Getenv("GOATVC_SAVEALL") != "") && ob.Script != "" {
 				os.WriteFile(filepath.Join(cfg.SaveDir, fmt.Sprintf("%04d_%s.smt2", ob.ID, smtSym(ob.Name))), []byte(ob.Script), 0o644)
 			}
 		}
